@@ -271,7 +271,7 @@ theorem committed_forever (hm : MonoTime c) {s : Sys} (hr : Reach c s) (o : Op) 
     | (split
        · rename_i hh; exact (update_spec c hm hh _ hi.pool).2.2.1 k hk
        · exact hk)
-    | (rw [(newPool_spec c hm (stateAt c s.storeH) hi.pool).2.2.2.1]; exact hk)
+    | (rw [(newPool_spec c hm (stateAt c s.stateH) hi.pool).2.2.2.1]; exact hk)
 
 /-- the evidence of a committed block is marked committed -/
 theorem update_marks_committed (hm : MonoTime c) {s : Sys} (hr : Reach c s) (hd : s.dead = false)
@@ -367,10 +367,13 @@ theorem pending_survives (hm : MonoTime c) {s : Sys} (hr : Reach c s) (o : Op) :
     | report v1 v2 => simp only [stepLive]; exact Or.inl hx
     | restart =>
       simp only [stepLive]
-      obtain ⟨_, _, h3, _, _, _, h7⟩ := newPool_spec c hm (stateAt c s.storeH) hi.pool
+      obtain ⟨_, _, h3, _, _, _, h7⟩ := newPool_spec c hm (stateAt c s.stateH) hi.pool
       rcases h7 x hx with h | h
       · exact Or.inl h
       · exact Or.inr (Or.inr (by rw [h3]; exact h))
+    | saveBlock h => simp only [stepLive]; split <;> exact Or.inl hx
+    | saveState h => simp only [stepLive]; split <;> exact Or.inl hx
+    | replay => simp only [stepLive]; split <;> exact Or.inl hx
     | update h evs =>
       simp only [stepLive]
       split
@@ -391,10 +394,13 @@ theorem pending_survives (hm : MonoTime c) {s : Sys} (hr : Reach c s) (o : Op) :
     cases o with
     | restart => exact hlive
     | grow h => exact hlive
+    | replay => exact hlive
     | add e => exact Or.inl hx
     | check l => exact Or.inl hx
     | update h evs => exact Or.inl hx
     | report v1 v2 => exact Or.inl hx
+    | saveBlock h => exact Or.inl hx
+    | saveState h => exact Or.inl hx
 
 /-- A restart (NewPool from the same evidence DB, state from the state store) keeps the committed
 markers, keeps every pending item that has not expired under the loaded state, invents nothing,
@@ -404,10 +410,10 @@ theorem pending_survives_restart (hm : MonoTime c) {s : Sys} (hr : Reach c s) :
     s'.pool.committed = s.pool.committed ∧
     (∀ x ∈ s'.pool.pending, x ∈ s.pool.pending) ∧
     (∀ x ∈ s.pool.pending, x ∈ s'.pool.pending ∨
-        expired (stateAt c s.storeH) x.height x.time = true) ∧
+        expired (stateAt c s.stateH) x.height x.time = true) ∧
     s'.pool.size = s'.pool.pending.length % 4294967296 ∧ s'.dead = false := by
   have hi := reach_inv c hm hr
-  obtain ⟨h1, _, _, h4, _, h6, h7⟩ := newPool_spec c hm (stateAt c s.storeH) hi.pool
+  obtain ⟨h1, _, _, h4, _, h6, h7⟩ := newPool_spec c hm (stateAt c s.stateH) hi.pool
   have : (step c s .restart).1 = (stepLive c s .restart).1 := by
     unfold step; cases s.dead <;> rfl
   simp only [this, stepLive]
@@ -604,5 +610,111 @@ example : lcaOK lCtx { lEquiv with byz := [("aa", 10)] } 2 = false := by decide
 example : (step lCtx (initSys lCtx 3) (.add (.lca lEquiv))).1.pool.pending = [.lca lEquiv] := by decide
 /-- the same block in another round is an amnesia attack: nobody can be named -/
 example : lcaOK lCtx { lEquiv with round := 1, byz := [] } 2 = true := by decide
+
+/-! ## ApplyBlock: the pool is updated BEFORE the state is saved -/
+
+theorem check_heights (s : Sys) (l : List Ev) :
+    (step c s (.check l)).1.stateH = s.stateH ∧ (step c s (.check l)).1.storeH = s.storeH ∧
+    (step c s (.check l)).1.dead = s.dead := by
+  unfold step; cases hd : s.dead <;> simp [stepLive, hd]
+
+theorem update_heights (s : Sys) (h : Int) (evs : List Ev) :
+    (step c s (.update h evs)).1.stateH = s.stateH ∧ (step c s (.update h evs)).1.storeH = s.storeH := by
+  unfold step; cases hd : s.dead <;> simp only [stepLive]
+  · split <;> simp
+  · simp
+
+theorem check_ok_live (s : Sys) (l : List Ev) (h : (step c s (.check l)).2 = .ok) : s.dead = false := by
+  cases hd : s.dead
+  · rfl
+  · unfold step at h; simp [hd] at h
+
+theorem saveState_pool (s : Sys) (h : Int) : (step c s (.saveState h)).1.pool = s.pool := by
+  unfold step; cases hd : s.dead <;> simp only [stepLive]
+  · split <;> rfl
+
+theorem saveState_dead (s : Sys) (h : Int) (hd : s.dead = true) : (step c s (.saveState h)).1 = s := by
+  unfold step; simp [hd]
+
+theorem update_ok_of_live (hm : MonoTime c) {s : Sys} (hr : Reach c s) (hd : s.dead = false) (h : Int)
+    (evs : List Ev) (hh : h ≤ s.storeH) (hl : (step c s (.update h evs)).1.dead = false) :
+    (step c s (.update h evs)).2 = .ok := by
+  have hi := reach_inv c hm hr
+  unfold step at hl ⊢
+  simp only [hd, stepLive, hh, ↓reduceIte] at hl ⊢
+  exact Res_not_panicked (update_spec c hm hh evs hi.pool).2.1 hl
+
+/-- Crash safety of `ApplyBlock` with respect to "used once": whatever prefix of ApplyBlock ran
+before the process died (`k` steps; `k ≥ 3` = it completed), IF the state of height `h` is what the
+state store holds afterwards (so the node considers block `h` applied and will not apply it again),
+THEN after the restart (handshake replay + new pool on the same DBs) every evidence of block `h` is
+marked committed, is not pending and can never pass `CheckEvidence` again. This is exactly because
+`evpool.Update` precedes `store.Save` (fact `applyblock_order`). -/
+theorem applyblock_crash_safe (hm : MonoTime c) {s : Sys} (hr : Reach c s) (h : Int) (evs : List Ev)
+    (k : Nat) (hh : h ≤ s.storeH) (hlt : s.stateH < h)
+    (hsaved : (applyBlockSteps c s h evs k).stateH = h) :
+    ∀ e ∈ evs,
+      isCommitted c (run c (applyBlockSteps c s h evs k) [.replay, .restart]).pool e = true ∧
+      isPending c (run c (applyBlockSteps c s h evs k) [.replay, .restart]).pool e = false ∧
+      ∀ l, e ∈ l → (step c (run c (applyBlockSteps c s h evs k) [.replay, .restart]) (.check l)).2 ≠ .ok := by
+  intro e he
+  -- the state is saved only by the last step
+  have key : Reach c (applyBlockSteps c s h evs k) ∧
+      isCommitted c (applyBlockSteps c s h evs k).pool e = true := by
+    unfold applyBlockSteps at hsaved ⊢
+    have hc := check_heights c s evs
+    have hu := update_heights c (step c s (.check evs)).1 h evs
+    by_cases hk0 : k = 0
+    · simp [hk0] at hsaved; omega
+    · simp only [hk0, ↓reduceIte] at hsaved ⊢
+      by_cases hok : (step c s (.check evs)).2 = .ok
+      · simp only [hok, ne_eq, not_true_eq_false, ↓reduceIte] at hsaved ⊢
+        by_cases hk1 : k = 1
+        · simp only [hk1, ↓reduceIte] at hsaved; rw [hc.1] at hsaved; omega
+        · simp only [hk1, ↓reduceIte] at hsaved ⊢
+          by_cases hk2 : k = 2
+          · simp only [hk2, ↓reduceIte] at hsaved; rw [hu.1, hc.1] at hsaved; omega
+          · simp only [hk2, ↓reduceIte] at hsaved ⊢
+            have hlive := check_ok_live c s evs hok
+            have hr1 : Reach c (step c s (.check evs)).1 := Reach.step _ hr trivial
+            have hd1 : (step c s (.check evs)).1.dead = false := by rw [hc.2.2]; exact hlive
+            have hst1 : h ≤ (step c s (.check evs)).1.storeH := by rw [hc.2.1]; exact hh
+            have hr2 := Reach.step (c := c) (.update h evs) hr1 trivial
+            have hr3 := Reach.step (c := c) (.saveState h) hr2 trivial
+            refine ⟨hr3, ?_⟩
+            cases hdead : (step c (step c s (.check evs)).1 (.update h evs)).1.dead with
+            | true =>
+              rw [saveState_dead c _ h hdead, hu.1, hc.1] at hsaved; omega
+            | false =>
+              have hokU := update_ok_of_live c hm hr1 hd1 h evs hst1 hdead
+              have hm2 := (update_marks_committed c hm hr1 hd1 h evs hokU hst1 e he).1
+              rw [saveState_pool]; exact hm2
+      · simp only [hok, ne_eq, not_false_eq_true, ↓reduceIte] at hsaved
+        rw [hc.1] at hsaved; omega
+  obtain ⟨hrX, hcX⟩ := key
+  have := used_once c hm hrX e hcX [.replay, .restart] (by intro o _; cases o <;> trivial)
+  exact ⟨this.2.1, this.2.2.1, this.2.2.2.1⟩
+
+
+/-- KNOWN FINDING (crash window before `evpool.Update`): block `h` is in the block store, ApplyBlock
+dies before the pool was updated (here: right after validation), the handshake replays block `h`
+with `sm.EmptyEvidencePool{}` and saves its state — the pool never learns that the block's evidence
+was committed: after the restart it is still pending, passes `CheckEvidence` and is proposed again.
+So `applyblock_crash_safe` cannot be strengthened from "the state was saved by ApplyBlock" to "the
+state of `h` is saved after the restart". -/
+theorem replay_skips_pool_fails :
+    let s := run exCtx (initSys exCtx 2) [.add (.dv exDV), .saveBlock 3]
+    let s' := run exCtx (applyBlockSteps exCtx s 3 [.dv exDV] 1) [.replay, .restart]
+    s.stateH = 2 ∧ s'.stateH = 3 ∧ s'.dead = false ∧
+    isCommitted exCtx s'.pool (.dv exDV) = false ∧ isPending exCtx s'.pool (.dv exDV) = true ∧
+    (step exCtx s' (.check [.dv exDV])).2 = .ok ∧
+    (pendingEvidence exCtx s'.pool (-1)).1 = [.dv exDV] := by decide
+
+/-- the same block applied without a crash: committed, not pending, a second block with it fails -/
+example :
+    let s := run exCtx (initSys exCtx 2) [.add (.dv exDV), .saveBlock 3]
+    let s' := run exCtx (applyBlockSteps exCtx s 3 [.dv exDV] 3) [.replay, .restart]
+    s'.stateH = 3 ∧ isCommitted exCtx s'.pool (.dv exDV) = true ∧
+    (step exCtx s' (.check [.dv exDV])).2 = .committed := by decide
 
 end Tmv.Props.C11
